@@ -7,7 +7,7 @@ STUB_E1 = ["global allocator (deterministic auditing arena at a fixed address)",
 
 ASSUME_E1 = [
     "sampling: a clean batch is evidence, not proof",
-    "brood is exercised through the harness component zoo (plain, zero-sized, boxed, 64-aligned, one-byte, Vec-owning, 16-aligned) and the generated call-site catalogues for a 7-component registry (and, for C01 C03 C05 C06 C11 C13 C17, a 10-component registry with two identifier bytes; for C01 C06 C11 C13 an 8-component registry with no padding bits; for C01 C03 C13 a 9-component registry; for C01 C02 C06 C11 C13 the empty registry)",
+    "brood is exercised through the harness component zoo (plain, zero-sized, boxed, 64-aligned, one-byte, Vec-owning, 16-aligned, and one without a destructor) and the generated call-site catalogues for a 7-component registry (and, for C01 C03 C04 C05 C06 C10 C11 C13 C17, a 10-component registry with two identifier bytes; for C01 C06 C11 C13 an 8-component registry with no padding bits, run on a world without resources; for C01 C03 C13 a 9-component registry; for C01 C02 C06 C11 C13 the empty registry)",
     "the reference model (BTreeMap of identifier -> component values) is trusted",
     "the dump hook (World::verif_dump, cfg brood_verif) reports the structures faithfully",
 ]
@@ -37,7 +37,7 @@ PLAN = {
 }
 
 # The 10-component registry (two identifier bytes, six padding bits) runs the same simulator.
-for _p, _q, _t in (("C01", 40000, 400000), ("C03", 40000, 400000), ("C05", 40000, 400000), ("C06", 40000, 400000), ("C13", 40000, 400000), ("C11", 40, 600), ("C17", 400, 6000)):
+for _p, _q, _t in (("C01", 40000, 400000), ("C03", 40000, 400000), ("C04", 40000, 400000), ("C05", 40000, 400000), ("C10", 40000, 400000), ("C06", 40000, 400000), ("C13", 40000, 400000), ("C11", 40, 600), ("C17", 400, 6000)):
     for _tier, _n in (("quick", _q), ("thorough", _t)):
         PLAN[_p][_tier] = PLAN[_p][_tier] + [{"binary": "worldsim10", "package": "worldsim10", "profile": _p, "runs": _n, "chunks_per_job": 2 if _p not in ("C11", "C17") else 4}]
 
@@ -100,7 +100,7 @@ STUB_E2 = ["rayon-core join / join_context / current_num_threads (vendored copy 
 ASSUME_E2 = [
     "sampling of schedules x worlds x scheduler decisions: a clean batch is evidence, not proof",
     "brood-internal code between two harness callbacks is atomic to the scheduler; overlap is judged structurally from the recorded fork/join tree (series-parallel paths), so one run covers all interleavings of its tree",
-    "the schedule catalogue is generated at build time (48 schedules, 174 tasks) because staging is decided by trait resolution",
+    "the schedule catalogue is generated at build time (48 schedules, 171 tasks) because staging is decided by trait resolution",
     "the simulated join reproduces rayon's contract: both closures run to completion, a's panic wins",
 ]
 
